@@ -995,6 +995,7 @@ _ABBR = {"bit_vectors": "bv", "integer_arithmetic": "int", "real_arithmetic": "r
 def make(env, profile, res, part):
     ex = Extractor()
     verdict = make_verdict(env, ex)
+    other = {}
 
     def check(f):
         try:
@@ -1011,6 +1012,25 @@ def make(env, profile, res, part):
             if len(res.samples) < 2:
                 res.sample({"part": part["name"], "term": termio.short(termio.dump(f)), "needs": sorted(need)}, limit=2)
         if fail is None:
+            # the copy in a companion environment that is never pushed, analysed by that environment's
+            # oracles (which reach into the environment on top of the stack for free variables)
+            st = other.get("env")
+            if st is None or len(st.formula_manager.formulae) > 200000:
+                st = other["env"] = Environment()
+                other["verdict"] = make_verdict(st, ex)
+            try:
+                f2 = st.formula_manager.normalize(f)
+                fail2 = other["verdict"](f2)[0]
+            except OracleUnsupported:
+                fail2 = None
+            except Exception as e:
+                fail2 = ("exception", [], "analysing the copy raised %r" % (e,))
+            res.count("foreign_copies")
+            if fail2 is not None and not other.get("reported"):
+                other["reported"] = True
+                _viol(res, part["name"], "foreign-environment:%s" % fail2[0],
+                      "%s: the copy of %s in an environment that is not on top of the stack: %s"
+                      % (part["name"], termio.short(termio.dump(f)), fail2[2]), {"term": termio.dump(f), "foreign": True})
             return
         sub, r = minimal_failing(f, lambda g: verdict(g)[0])
         if r is None:
@@ -1211,6 +1231,21 @@ def replay(rec):
     case = rec["case"]
     kind = case.get("kind")
     res = Result()
+    if case.get("foreign"):
+        env = Environment()
+        push_env(env)
+        try:
+            ex = Extractor()
+            f = termio.build(env, case["term"])
+            make_verdict(env, ex)(f)
+            env2 = Environment()
+            fail = make_verdict(env2, ex)(env2.formula_manager.normalize(f))[0]
+            if fail is not None:
+                return False, "copy of %s in an environment that is not on top of the stack: %s" % (
+                    termio.short(case["term"]), fail[2])
+            return True, "the logic detected for the copy of %s in another environment covers it" % termio.short(case["term"])
+        finally:
+            pop_env()
     if kind in ("theory-pair", "theory-triple"):
         ks = [tuple(case[x]) for x in ("a", "b", "c") if x in case]
         for ka in ks:
